@@ -26,7 +26,7 @@ pub fn args() -> Vec<OsString> {
     let (args, errs) = match parse(&config_path) {
         Ok((args, errs)) => (args, errs),
         Err(err) => {
-            message!(
+            err_message!(
                 "failed to read the file specified in RIPGREP_CONFIG_PATH: {}",
                 err
             );
@@ -35,7 +35,7 @@ pub fn args() -> Vec<OsString> {
     };
     if !errs.is_empty() {
         for err in errs {
-            message!("{}:{}", config_path.display(), err);
+            err_message!("{}:{}", config_path.display(), err);
         }
     }
     log::debug!(
